@@ -183,6 +183,7 @@ package hclsyntax
 //@ ghost quotedRead = ite(ret.Type == TokenQuotedLit, old(quotedRead) + 1, old(quotedRead))
 //@ ensures len(p.IncludeNewlinesStack) == old(len(p.IncludeNewlinesStack))
 //@ ensures counted: quotedRead == ite(ret.Type == TokenQuotedLit, old(quotedRead) + 1, old(quotedRead))
+//@ ensures prev: p.Tokens === old(p.Tokens) && (len(p.Tokens) >= 1 ==> p.NextIndex <= len(p.Tokens) && ret.Range == p.Tokens[p.NextIndex - 1].Range)
 
 // The range of the next token is the range of the token Peek returns: skipped comments and
 // newlines never lend their range to the construct that follows them.
@@ -513,3 +514,22 @@ package hclsyntax
 // verif:func (*FunctionCallExpr).Value
 //@ nosafety
 //@ ensures expand: old(e.ExpandFinal) && old(len(e.Args)) >= 1 && !isKnownVal(exprVal(old(e.Args[len(e.Args) - 1]), ctx)) ==> len(ret1) > 0 || (forall k iface :: { marked(ret0, k) } marked(exprVal(old(e.Args[len(e.Args) - 1]), ctx), k) ==> marked(ret0, k))
+
+// ---- the range of an attribute-only splat (unit U11d, C14) ----
+// numberLitValue only converts the token's text.
+// verif:func (*parser).numberLitValue
+//@ nosafety
+//@ props C14,C15
+//@ assigns nothing
+// In the loop that collects the steps of an attribute-only splat (foo.*.a.0), lastRange is always the
+// range of the last token consumed, so the splat's SrcRange extends to the end of its last step.
+// verif:func (*parser).parseExpressionTraversals
+//@ nosafety
+//@ props C14,C15
+//@ requires p.peeker != nil && len(p.peeker.IncludeNewlinesStack) >= 1
+//@ ensures depth: len(p.peeker.IncludeNewlinesStack) == old(len(p.peeker.IncludeNewlinesStack))
+//@ ensures samePeeker: p.peeker == old(p.peeker)
+//@ ensures srcBytes: forall q *byte :: { deref(q) } existed(q) ==> deref(q) == old(deref(q))
+//@ loopall invariant p.peeker == old(p.peeker) && len(p.peeker.IncludeNewlinesStack) == atentry(len(p.peeker.IncludeNewlinesStack))
+//@ loopall invariant srcBytes: forall q *byte :: { deref(q) } existed(q) ==> deref(q) == old(deref(q))
+//@ loop 2 invariant lastTok: len(p.peeker.Tokens) >= 1 ==> p.peeker.NextIndex <= len(p.peeker.Tokens) && lastRange == p.peeker.Tokens[p.peeker.NextIndex - 1].Range
